@@ -552,6 +552,8 @@ def _special_cases():
             out.append({"kind": "special", "what": "tiny-unit-large-read", "fmt": fmt, "alloc": alloc})
     for depth in (4, 8):
         out.append({"kind": "special", "what": "vmdk-descriptor-chain-embedded-parents", "depth": depth})
+    for fill in ("free", "int"):
+        out.append({"kind": "special", "what": "hyperv-large-key-table", "fill": fill})
     for where in ("first", "middle", "last", "only"):
         for how in ("handles", "descriptor"):
             out.append({"kind": "special", "what": "vmdk-zero-sector-extent", "where": where, "how": how})
@@ -1202,6 +1204,61 @@ def _run_special(case, ctx):
             if times[1] > 6.0 and times[1] > 7 * times[4]:
                 ctx.violation(case, {"subject": subject, "kind": "time-not-linear-in-request"},
                               {"quarter_request_s": round(times[4], 2), "full_request_s": round(times[1], 2), "units": n})
+                return False
+        return ok
+    if what == "hyperv-large-key-table":
+        # one key table of 512 KiB and one of 2 MiB, both filled with minimal entries (Free entries of 21 bytes / Int entries
+        # under one node): decoding four times the table may cost about four times the processor time (same rule as above)
+        import time
+
+        from mc.builders import hyperv as BHV
+
+        def build(table_size):
+            buf = bytearray(0x10000)
+            buf[0:0x30] = BHV.header(7, 0x8000).ljust(0x30, b"\0")[:0x30]
+            buf[0x1000:0x1030] = BHV.header(6, 0x8000).ljust(0x30, b"\0")[:0x30]
+            rl = BHV.replay()
+            buf[0x8000:0x8000 + len(rl)] = rl
+            ot = BHV.objtable([(6, 0x8000, 0x1000, 1), (2, 0x10000, table_size, 1)])
+            buf[0x2000:0x2000 + len(ot)] = ot
+            body = struct.pack("<HHHI", 2, 1, 5, 0)
+            if case["fill"] == "free":
+                ent = struct.pack(BHV.ENT, BHV.T_FREE, 21, 0, 0, 0, 0, 0)
+                body += ent * ((table_size - len(body)) // len(ent) - 1)
+            else:
+                root = struct.pack(BHV.ENT, BHV.T_NODE, 21 + 2 + 12, 0, 0, 0, 0, 2) + b"c\0" + struct.pack("<QI", 0, 0)
+                root_off = len(body)
+                body += root
+                i = 0
+                while len(body) + 40 < table_size:
+                    key = f"k{i:06x}".encode() + b"\0"
+                    body += struct.pack(BHV.ENT, BHV.T_INT, 21 + len(key) + 8, 1, root_off, 0, i, len(key)) + key + struct.pack("<q", i)
+                    i += 1
+            return bytes(buf) + body.ljust(table_size, b"\0")
+
+        times = {}
+        raws = {part: build((2 << 20) // part) for part in (4, 1)}
+
+        def drv(_):
+            from dissect.hypervisor.descriptor.hyperv import HyperVFile
+
+            out = 0
+            for part in (4, 1):
+                t0 = time.process_time()
+                f = HyperVFile(io.BytesIO(raws[part]))
+                out += len(f.as_dict())
+                times[part] = time.process_time() - t0
+            return out
+
+        # every entry becomes a few Python objects (about 1 KiB for a 21-byte entry): linear, with a large constant -- the
+        # allowance follows the number of entries; what this family decides is the time rule below
+        ok = _execute(ctx, case, None, raws[1], subject, drv, {}, ((len(raws[1]) + len(raws[4])) // 21) * 512)
+        if ok and times.get(1) is not None:
+            ctx.maxi("hyperv_table_full_s_x1000", int(1000 * times[1]))
+            ctx.maxi("hyperv_table_full_over_quarter_time_permille", int(1000 * times[1] / max(times[4], 1e-3)))
+            if times[1] > 6.0 and times[1] > 7 * times[4]:
+                ctx.violation(case, {"subject": subject, "kind": "time-not-linear-in-input"},
+                              {"quarter_table_s": round(times[4], 2), "full_table_s": round(times[1], 2), "table_bytes": 2 << 20})
                 return False
         return ok
     if what == "huge-unit-small-read":
